@@ -7,6 +7,12 @@
 #include <bee2/core/util.h>
 #include <bee2/crypto/bels.h>
 
+/* the caller's generator as the library sees it: counts the octets the library asks for (the algorithm of the standard
+   draws exactly (threshold - 1) * len octets per sharing) and delivers the echo tape */
+static size_t g_drawn = 0; static void* g_echo = 0;
+static void countingGen(void* buf, size_t count, void* state) { (void)state; g_drawn += count; prngEchoStepR(buf, count, g_echo); }
+
+
 static int g_thorough = 0;
 
 static void jOctArr(const char* k, const octet* p, size_t n, size_t len, const size_t* idx)
@@ -73,8 +79,9 @@ static void scheme(size_t len, size_t count, size_t thr, int gen_keys)
 		for (i = 0; i < count; ++i) belsStdM(mi + i * len, len, 1 + (start + i) % 16);
 	}
 	prngEchoStart(echo, tape, thr * len - len ? thr * len - len : 1);
-	rc = belsShare(si, count, thr, len, s, m0, mi, prngEchoStepR, echo);
-	jBegin(); jStr("op", "share"); jInt("len", (long long)len); jInt("count", (long long)count); jInt("thr", (long long)thr);
+	g_drawn = 0; g_echo = echo;
+	rc = belsShare(si, count, thr, len, s, m0, mi, countingGen, 0);
+	jBegin(); jStr("op", "share"); jInt("drawn", (long long)g_drawn); jInt("len", (long long)len); jInt("count", (long long)count); jInt("thr", (long long)thr);
 	jOct("s", s, len); jOct("m0", m0, len); jOctArr("mi", mi, count, len, 0); jOct("k", tape, thr * len - len);
 	jOctArr("si", si, count, len, 0); jInt("rc", rc); jEnd();
 	if (rc != ERR_OK) return;
